@@ -385,6 +385,105 @@ func c04payloadOK(cs c04case) bool {
 	return true
 }
 
+// c04sibling: k = 2..3 children of one parent that all show the SAME prompt (as IOS-XR / Junos
+// `configuration` / `configuration-exclusive`), optionally one of them behind an authenticated edge,
+// plus a spine of unambiguous levels; the session starts at an unambiguous level and hops between
+// the siblings at least `hops` times (AcquirePriv / SendConfig(s) / SendInteractive with
+// WithPrivilegeLevel), with commands at the default level in between. Telling the siblings apart
+// is only possible through the tracked CurrentPriv, which the driver itself keeps accurate.
+func c04sibling(seed uint64, k, hops int) c04case {
+	r := vlib.NewRng(seed)
+	cs := c04case{kind: "sibling", line: fmt.Sprintf("c04case sibling %d %d %d", seed, k, hops)}
+	host := r.Pick([]string{"RP/0/RP0/CPU0:xr1", "router", "vmx-1"})
+	spine := r.Range(1, 3) // exec [-> privilege-exec [-> admin]]
+	spineNames := []string{"exec", "privilege-exec", "admin"}[:spine]
+	spinePrompt := []string{host + ">", host + "#", host + "(admin)#"}
+	spinePat := []string{`(?im)^[\w.\-@/:]{1,63}>$`, `(?im)^[\w.\-@/:]{1,63}#$`, `(?im)^[\w.\-@/:]{1,63}\(admin\)#$`}
+	if r.Chance(1, 2) {
+		cs.secret = r.Pick([]string{"s3cret!", "lab"})
+	}
+	for i, n := range spineNames {
+		l := c04lvl{name: n, prompt: spinePrompt[i], pattern: spinePat[i]}
+		if i > 0 {
+			l.prev = spineNames[i-1]
+			l.esc, l.deesc = []string{"", "enable", "admin"}[i], []string{"", "disable", "exit"}[i]
+			if i == 1 && cs.secret != "" {
+				l.auth, l.asks, l.escPrompt = true, r.Chance(2, 3), c04pwPrompt
+			}
+		}
+		cs.levels = append(cs.levels, l)
+	}
+	parent := spineNames[r.Intn(spine)]
+	sibNames := []string{"configuration", "configuration-exclusive", "configuration-private"}[:k]
+	sibEsc := []string{"configure terminal", "configure exclusive", "configure private"}
+	sibDeesc := []string{"end", "end", "abort"}
+	samePattern := r.Chance(1, 2)
+	authSib := -1
+	if cs.secret != "" && r.Chance(1, 2) {
+		authSib = r.Intn(k)
+	}
+	for i, n := range sibNames {
+		l := c04lvl{name: n, prev: parent, esc: sibEsc[i], deesc: sibDeesc[i], prompt: host + "(config)#",
+			pattern: `(?im)^[\w.\-@/:]{1,63}\(config[\w.\-@/:+]{0,32}\)#$`}
+		if !samePattern && i == 1 {
+			l.pattern = `(?im)^[\w.\-@/:]{1,63}\([\w.\-@/:+]{0,32}\)#$`
+			l.notContains = []string{"(admin)", "(tcl)"}
+		}
+		if i == authSib {
+			l.auth, l.asks, l.escPrompt = true, r.Chance(2, 3), c04pwPrompt
+		}
+		cs.levels = append(cs.levels, l)
+	}
+	// an extra unambiguous leaf somewhere
+	if r.Chance(1, 2) {
+		cs.levels = append(cs.levels, c04lvl{name: "tclsh", prev: spineNames[r.Intn(spine)], esc: "tclsh", deesc: "tclquit",
+			prompt: host + "(tcl)#", pattern: `(?im)^[\w.\-@/:]{1,63}\(tcl\)#$`})
+	}
+	for i := len(cs.levels) - 1; i > 0; i-- { // list order is not tree order
+		j := r.Intn(i + 1)
+		cs.levels[i], cs.levels[j] = cs.levels[j], cs.levels[i]
+	}
+	cs.start = spineNames[r.Intn(spine)]
+	if r.Chance(1, 3) {
+		cs.def = sibNames[r.Intn(k)]
+	} else {
+		cs.def = spineNames[r.Intn(spine)]
+	}
+	cs.seg = r.Intn(4)
+	cs.segK = r.Range(2, 30)
+	cs.segSeed = r.U64()
+	cs.ordSeed = r.Intn(1000)
+	cur := -1
+	for h := 0; h < hops; h++ {
+		t := r.Intn(k)
+		if t == cur && r.Chance(3, 4) {
+			t = (t + 1 + r.Intn(k-1)) % k
+		}
+		cur = t
+		switch r.Intn(6) {
+		case 0, 1, 2:
+			cs.ops = append(cs.ops, c04op{kind: "acq", arg: sibNames[t]})
+		case 3:
+			cs.ops = append(cs.ops, c04op{kind: "cfgs", priv: sibNames[t], lines: []string{r.Pick(c04payload), r.Pick(c04payload)}})
+		case 4:
+			cs.ops = append(cs.ops, c04op{kind: "cfg", priv: sibNames[t], arg: r.Pick(c04payload)})
+		default:
+			cs.ops = append(cs.ops, c04op{kind: "int", priv: sibNames[t], lines: []string{r.Pick(c04payload)}})
+		}
+		switch r.Intn(8) {
+		case 0:
+			cs.ops = append(cs.ops, c04op{kind: "cmd", arg: r.Pick(c04payload)})
+			if cs.def != sibNames[t] {
+				cur = -1
+			}
+		case 1:
+			cs.ops = append(cs.ops, c04op{kind: "cfgs", lines: []string{r.Pick(c04payload)}}) // no option: "configuration"
+			cur = 0
+		}
+	}
+	return cs
+}
+
 func c04min(a, b int) int {
 	if a < b {
 		return a
@@ -624,20 +723,70 @@ func c04expected(cs c04case) c04spec {
 
 func c04hexS(s string) string { return vlib.Hex([]byte(s)) }
 
+// c04matrix[i][j]: does level i accept the prompt of level j — the code's own predicate
+// (determineCurrentPriv): not-contains, then the pattern, with Go's regexp.
+func c04matrix(cs c04case) [][]bool {
+	m := make([][]bool, len(cs.levels))
+	for i, l := range cs.levels {
+		re := regexp.MustCompile(l.pattern)
+		m[i] = make([]bool, len(cs.levels))
+		for j, o := range cs.levels {
+			m[i][j] = !util.StringContainsAny(o.prompt, l.notContains) && re.MatchString(o.prompt)
+		}
+	}
+	return m
+}
+
+// c04unamb: no other level accepts the prompt of level j.
+func c04unamb(m [][]bool, j int) bool {
+	for i := range m {
+		if i != j && m[i][j] {
+			return false
+		}
+	}
+	return true
+}
+
+// c04inDomain mirrors the theorem's hypotheses for a generated case: every level recognises its
+// own prompt, levels with an ambiguous prompt have at most one neighbour, the session starts at
+// an unambiguous level, payload lines are not transition commands.
+func c04inDomain(cs c04case) bool {
+	m := c04matrix(cs)
+	for j, l := range cs.levels {
+		if !m[j][j] {
+			return false
+		}
+		if !c04unamb(m, j) {
+			nb := map[string]bool{}
+			if l.prev != "" {
+				nb[l.prev] = true
+			}
+			for _, o := range cs.levels {
+				if o.prev == l.name {
+					nb[o.name] = true
+				}
+			}
+			if len(nb) > 1 {
+				return false
+			}
+		}
+		if l.name == cs.start && !c04unamb(m, j) {
+			return false
+		}
+	}
+	return c04payloadOK(cs)
+}
+
 func c04levelsField(cs c04case) string {
 	if len(cs.levels) == 0 {
 		return "."
 	}
-	res := make([]*regexp.Regexp, len(cs.levels))
-	for i, l := range cs.levels {
-		res[i] = regexp.MustCompile(l.pattern)
-	}
+	mat := c04matrix(cs)
 	var recs []string
 	for i, l := range cs.levels {
 		row := ""
-		for _, m := range cs.levels {
-			// the code's own predicate (determineCurrentPriv): not-contains, then the pattern
-			if !util.StringContainsAny(m.prompt, l.notContains) && res[i].MatchString(m.prompt) {
+		for j := range cs.levels {
+			if mat[i][j] {
 				row += "1"
 			} else {
 				row += "0"
@@ -733,7 +882,8 @@ func runC04(c *ctx) {
 	res.Rule = "sessions of the real network.Driver (AcquirePriv / SendCommand(s) / SendConfig(s) / SendInteractive) over the privilege device: " +
 		"every rooted labelled tree with <=4 (thorough <=5) levels x a tour covering all (current,target) pairs x {plain, authenticated edges with and without password request, shared commands} " +
 		"x segmentation classes; random trees to 9 levels with random operation sequences (<=12 ops, unknown levels included); the IOS-like tree with the real overlapping patterns; " +
-		"out-of-quantifier streams (payload = transition command, ambiguous prompts) compared for information. non-trivial = in-domain session with at least one acquisition of >=1 hop; distinct by case line"
+		"sibling levels sharing one prompt (2-3 children of one parent, optional authenticated edge) with >=20 hops between the siblings per session; " +
+		"out-of-quantifier streams (payload = transition command, ambiguous interior levels / ambiguous start) compared for information. non-trivial = in-domain session with at least one acquisition of >=1 hop; distinct by case line"
 	if c.replay != "" {
 		cs, ok := c04replay(c.replay)
 		if !ok {
@@ -778,6 +928,9 @@ func runC04(c *ctx) {
 	for i := c.n(30, 300); i > 0; i-- {
 		cases = append(cases, c04random(c.rng.U64(), 5, 4, "ambiguous"))
 	}
+	for i := c.n(120, 1500); i > 0; i-- {
+		cases = append(cases, c04sibling(c.rng.U64(), 2+i%2, 20+i%9))
+	}
 	c04check(c, cases)
 }
 
@@ -796,6 +949,12 @@ func c04replay(line string) (c04case, bool) {
 		seed, _ := strconv.ParseUint(f[2], 10, 64)
 		if f[1] == "ios" {
 			return c04ios(seed, atoi(f[4])), true
+		}
+		if f[1] == "sibling" {
+			if k := atoi(f[3]); k < 2 || k > 3 {
+				return c04case{}, false
+			}
+			return c04sibling(seed, atoi(f[3]), atoi(f[4])), true
 		}
 		return c04random(seed, atoi(f[3]), atoi(f[4]), f[1]), true
 	}
@@ -850,8 +1009,8 @@ func c04check(c *ctx, cases []c04case) {
 				"ops": len(cs.ops), "secret": cs.secret != "", "seg": cs.seg, "dom": dom, "device_log": c04pretty(o.log)})
 		}
 		implE, implM, implL := c04errsStr(o.errs), c04modesStr(o.modes), c04logStr(o.log)
-		if cs.indom != dom {
-			res.Fail("machinery", cs.line, fmt.Sprintf("generator says in-domain=%v, the theorem's decidable hypotheses say %v", cs.indom, dom), "domain-mismatch")
+		if indom := c04inDomain(cs); indom != dom {
+			res.Fail("machinery", cs.line, fmt.Sprintf("generator says in-domain=%v, the theorem's decidable hypotheses say %v", indom, dom), "domain-mismatch")
 			continue
 		}
 		if !dom {
